@@ -35,7 +35,7 @@ def hdlc_suffix(cfg, k: int, shared: bool):
         return _SUF[key]
     if cfg[0]:
         pool = X.frame_pool()
-        frames = [pool["short"], pool["flagesc"], pool["hdr_only"], pool["addr24"]][:k]
+        frames = ([pool["short"], pool["flagesc"]] if k < 4 else [pool["short"], pool["segbit"], pool["hdr_only"], pool["addr24"], pool["flagesc"]])
     else:
         frames = [_flagfree_frame(991, s) for s in range(3)] + [_flagfree_frame(41, s) for s in range(3)] + [_flagfree_frame(5, 1), _flagfree_frame(0, 2)]
         frames = frames if k >= 4 else frames[:5]
